@@ -8,7 +8,7 @@
 #include <stdint.h>
 #include <stdio.h>
 
-#define VP_MAX_IFACE 8
+#define VP_MAX_IFACE 32
 
 enum {
     GF_MTU = 1, GF_MAC = 2, GF_IFTYPE = 4, GF_IPV4 = 8, GF_IPV6 = 16, GF_SPEED = 32,
@@ -38,6 +38,8 @@ typedef struct vp_iface {
 /* process-wide attributes (the port API has no iface argument for these) */
 typedef struct vp_global {
     uint8_t *icon;  size_t icon_len;  int icon_present;   /* present=0: getter fails */
+    size_t fail_size;                                      /* what a FAILING icon / name query leaves in *out_size (data pointer untouched); 0 = untouched */
+    int memcmp_wide;                                       /* lltd_port_memcmp answers with multiples of 256 */
     int send_len;                                          /* a successful transmit returns the byte count instead of 0 */
     size_t mtu_clobber;                                    /* what a FAILING MTU query leaves in its output (0 = untouched) */
     int failrc;                                            /* return code of a failing getter (0 = the default -1) */
